@@ -10,3 +10,16 @@ open RV.C08
 #print axioms orderby_spec_partial
 #print axioms orderby_spec_witness
 #print axioms slice_of_ordered
+#print axioms group_partition
+#print axioms implicit_group_single_row
+#print axioms count_spec
+#print axioms sum_spec
+#print axioms avg_spec
+#print axioms min_spec_partial
+#print axioms max_spec_partial
+#print axioms min_spec_witness
+#print axioms sample_spec
+#print axioms groupconcat_spec
+#print axioms empty_group_values
+#print axioms having_filters_groups
+#print axioms query_stages
